@@ -18,7 +18,7 @@ from .recode import (
     rename_code,
 )
 from .typemap import MultiTypeMap
-from .types import clsstring, normalize_type
+from .types import clsstring, get_args, normalize_type
 from .utils import MISSING, UsageError, keyword_decorator, subtler_type
 
 _current_id = itertools.count()
@@ -144,7 +144,13 @@ class Arginfo:
 
     @cached_property
     def is_complex(self):
-        return isinstance(self.ann, GenericAlias)
+        # type[...], also as a member of a union such as type[int] | str
+        def has_generic(t):
+            return isinstance(t, GenericAlias) or any(
+                has_generic(arg) for arg in get_args(t)
+            )
+
+        return has_generic(self.ann)
 
     @cached_property
     def canonical(self):
